@@ -2269,3 +2269,239 @@ func LooseName(w *load.World, c *core.Collector) {
 		return nil
 	})
 }
+
+// REPEATCMP: a function compares the same two things twice (the same pure comparison applied to
+// structurally identical operands). The second comparison cannot tell more than the first: in a
+// multi-word comparator it is the word that was meant to be the next one (a[:8] against b[:8],
+// then a[:8] against b[:8] again instead of a[8:] against b[8:]), and ids that differ only there
+// compare equal.
+func RepeatCmp(w *load.World, c *core.Collector) {
+	per := map[string][]lintHit{}
+	seen := map[string]bool{}
+	pure := map[string]bool{"bytes.Compare": true, "bytes.Equal": true, "strings.Compare": true, "cmp.Compare": true, "cmp.Less": true, "slices.Compare": true, "slices.Equal": true}
+	var canon func(v ssa.Value, d int) string
+	canon = func(v ssa.Value, d int) string {
+		if d > 8 || v == nil {
+			return "?"
+		}
+		switch x := v.(type) {
+		case *ssa.Const:
+			return "k(" + x.String() + ")"
+		case *ssa.Parameter:
+			return "p(" + x.Name() + ")"
+		case *ssa.FreeVar:
+			return "fv(" + x.Name() + ")"
+		case *ssa.Global:
+			return "g(" + x.String() + ")"
+		case *ssa.Alloc:
+			// the cell a parameter was spilled into stands for the parameter
+			if sv := ssax.SingleStore(x); sv != nil {
+				if p, ok := sv.(*ssa.Parameter); ok {
+					return "cell(" + p.Name() + ")"
+				}
+			}
+			return "?"
+		case *ssa.Slice:
+			lo, hi := "", ""
+			if x.Low != nil {
+				lo = canon(x.Low, d+1)
+			}
+			if x.High != nil {
+				hi = canon(x.High, d+1)
+			}
+			return "slice(" + canon(x.X, d+1) + "," + lo + "," + hi + ")"
+		case *ssa.UnOp:
+			return "u" + x.Op.String() + "(" + canon(x.X, d+1) + ")"
+		case *ssa.FieldAddr:
+			return fmt.Sprintf("fa%d(%s)", x.Field, canon(x.X, d+1))
+		case *ssa.Field:
+			return fmt.Sprintf("f%d(%s)", x.Field, canon(x.X, d+1))
+		case *ssa.IndexAddr:
+			return "ia(" + canon(x.X, d+1) + "," + canon(x.Index, d+1) + ")"
+		case *ssa.Convert:
+			return "cv(" + canon(x.X, d+1) + ")"
+		case *ssa.ChangeType:
+			return canon(x.X, d+1)
+		case *ssa.Call:
+			g := x.Call.StaticCallee()
+			if g == nil {
+				return "?"
+			}
+			s := "call(" + g.String()
+			for _, a := range x.Call.Args {
+				s += "," + canon(a, d+1)
+			}
+			return s + ")"
+		}
+		return "?"
+	}
+	for _, f := range w.Fns {
+		if !load.InMod(f) || f.Synthetic != "" {
+			continue
+		}
+		pkg := load.PkgPath(f)
+		seen[pkg] = true
+		first := map[string]ssa.Instruction{}
+		for _, b := range f.Blocks {
+			for _, in := range b.Instrs {
+				call, ok := in.(*ssa.Call)
+				if !ok || call.Call.StaticCallee() == nil {
+					continue
+				}
+				name := call.Call.StaticCallee().String()
+				if i := strings.Index(name, "["); i > 0 {
+					name = name[:i]
+				}
+				if !pure[name] || len(call.Call.Args) != 2 {
+					continue
+				}
+				k := canon(call, 0)
+				if strings.Contains(k, "?") || canon(call.Call.Args[0], 0) == canon(call.Call.Args[1], 0) {
+					continue
+				}
+				if prev, dup := first[k]; dup {
+					per[pkg] = append(per[pkg], lintHit{w.At(in), "the same two operands are compared a second time (first at " + w.At(prev) + "): the part that was meant to be compared here is never looked at, and values that differ only in it count as equal"})
+				} else {
+					first[k] = in
+				}
+			}
+		}
+	}
+	emitLint(c, "REPEATCMP", "same-operands-twice", seen, per, nil)
+}
+
+// IFACEEQ: two values of type any are compared with == (or !=) and neither is known to hold a
+// comparable type. The comparison panics at run time when both hold the same uncomparable dynamic
+// type: decoded documents hold []any and map[string]any, and a panic in a worker goroutine is
+// outside the recovery middleware.
+func IfaceEq(w *load.World, c *core.Collector) {
+	per := map[string][]lintHit{}
+	seen := map[string]bool{}
+	isAny := func(t types.Type) bool {
+		it, ok := t.Underlying().(*types.Interface)
+		return ok && it.NumMethods() == 0
+	}
+	knownComparable := func(v ssa.Value) bool {
+		switch x := v.(type) {
+		case *ssa.MakeInterface:
+			return types.Comparable(x.X.Type())
+		case *ssa.Const:
+			return true
+		}
+		return false
+	}
+	for _, f := range w.Fns {
+		if !load.InMod(f) || f.Synthetic != "" {
+			continue
+		}
+		pkg := load.PkgPath(f)
+		seen[pkg] = true
+		for _, b := range f.Blocks {
+			for _, in := range b.Instrs {
+				bo, ok := in.(*ssa.BinOp)
+				if !ok || (bo.Op != token.EQL && bo.Op != token.NEQ) {
+					continue
+				}
+				if !isAny(bo.X.Type()) || !isAny(bo.Y.Type()) || knownComparable(bo.X) || knownComparable(bo.Y) {
+					continue
+				}
+				per[pkg] = append(per[pkg], lintHit{w.At(in), "two values of type any are compared with " + bo.Op.String() + ": when both hold a slice or a map (a decoded array or object) the comparison panics, in a goroutine the recovery middleware does not cover"})
+			}
+		}
+	}
+	emitLint(c, "IFACEEQ", "uncomparable-dynamic-type", seen, per, func(p string) []string {
+		if strings.HasSuffix(p, "/utils") {
+			return []string{"C18", "C06"}
+		}
+		return []string{"C18"}
+	})
+}
+
+// CUTONCE: a dotted path ("a.b.c") is taken apart with one strings.Cut (or SplitN(…, 2)) outside
+// any loop and the remainder is used as a map key as it is. Two segments resolve; with three the
+// key looked up is "b.c", which no map holds: the property counts as absent and whatever is
+// checked for present properties (type, vector length) is skipped.
+func CutOnce(w *load.World, c *core.Collector) {
+	per := map[string][]lintHit{}
+	seen := map[string]bool{}
+	for _, f := range w.Fns {
+		if !load.InMod(f) || f.Synthetic != "" {
+			continue
+		}
+		pkg := load.PkgPath(f)
+		seen[pkg] = true
+		for _, b := range f.Blocks {
+			for _, in := range b.Instrs {
+				call, ok := in.(*ssa.Call)
+				if !ok || staticName(call) != "strings.Cut" || len(call.Call.Args) != 2 || inLoop(b) {
+					continue
+				}
+				if sep, ok := ssax.ConstString(call.Call.Args[1]); !ok || sep != "." {
+					continue
+				}
+				// the part after the separator, used as a map key
+				var after ssa.Value
+				for _, r := range *call.Referrers() {
+					if ex, ok := r.(*ssa.Extract); ok && ex.Index == 1 {
+						after = ex
+					}
+				}
+				if after == nil {
+					continue
+				}
+				usedAsKey := false
+				seenV := map[ssa.Value]bool{}
+				var walk func(v ssa.Value, d int)
+				walk = func(v ssa.Value, d int) {
+					if d > 5 || seenV[v] || v.Referrers() == nil {
+						return
+					}
+					seenV[v] = true
+					for _, r := range *v.Referrers() {
+						switch x := r.(type) {
+						case *ssa.Lookup:
+							if x.Index == v {
+								usedAsKey = true
+							}
+						case *ssa.MapUpdate:
+							if x.Key == v {
+								usedAsKey = true
+							}
+						case *ssa.Phi:
+							walk(x, d+1)
+						case *ssa.Store:
+							if al, ok := x.Addr.(*ssa.Alloc); ok && x.Val == v {
+								for _, rr := range *al.Referrers() {
+									if ld, ok := rr.(*ssa.UnOp); ok && ld.Op == token.MUL {
+										walk(ld, d+1)
+									}
+								}
+							}
+						case *ssa.Return:
+							// handed back to a caller that uses it as the key
+							for i, res := range x.Results {
+								if res != v {
+									continue
+								}
+								for _, site := range staticCallSites(w, f) {
+									if sv := site.Value(); sv != nil {
+										for _, sr := range *sv.Referrers() {
+											if ex, ok := sr.(*ssa.Extract); ok && ex.Index == i {
+												walk(ex, d+1)
+											}
+										}
+									}
+								}
+							}
+						}
+					}
+				}
+				walk(after, 0)
+				if usedAsKey {
+					per[pkg] = append(per[pkg], lintHit{w.At(in), "a dotted path is cut once and the remainder is used as a map key: \"a.b.c\" looks up the key \"b.c\" in the map under \"a\", finds nothing, and the property is treated as absent"})
+				}
+			}
+		}
+	}
+	emitLint(c, "CUTONCE", "path-cut-once", seen, per, nil)
+}
